@@ -7,15 +7,20 @@
 
 mod common;
 
+mod c01;
 mod c03;
 mod c04;
 mod c05;
 mod c06;
 mod c12;
 mod c14;
+mod gen_recipe;
+mod image;
 mod inputs;
 mod inv;
+mod model;
 mod pipeline;
+mod print;
 mod recipe_inputs;
 mod soup;
 
@@ -30,6 +35,7 @@ type ReplayFn = fn(&str, &serde_json::Value) -> Verdict;
 
 fn dispatch(id: &str) -> Option<(fn(Tier) -> i32, ReplayFn)> {
     Some(match id {
+        "C01" => (c01::run, c01::replay),
         "C03" => (c03::run, c03::replay),
         "C04" => (c04::run, c04::replay),
         "C05" => (c05::run, c05::replay),
